@@ -38,7 +38,7 @@
 
 /* All uthash fatal errors arise from memory allocation failure */
 #undef uthash_fatal
-#define uthash_fatal(msg) FAIL(soft, CIF_MEMORY_ERROR)
+#define uthash_fatal(msg) FAIL(add, CIF_MEMORY_ERROR)
 
 #ifdef __cplusplus
 extern "C" {
@@ -148,10 +148,20 @@ int cif_packet_create_norm(cif_packet_tp **packet, UChar **names, int avoid_alia
                     scalar->key = *name;
                 } else {
                     scalar->key = cif_u_strdup(*name);
-                    if (scalar->key == NULL) FAIL(soft, CIF_MEMORY_ERROR);
+                    if (scalar->key == NULL) {
+                        free(scalar);
+                        FAIL(soft, CIF_MEMORY_ERROR);
+                    }
                 }
                 scalar->key_orig = scalar->key;
                 HASH_ADD_KEYPTR(hh, temp_packet->map.head, scalar->key, U_BYTES(scalar->key), scalar);
+                continue;
+
+                /* referenced by the HASH_ADD_KEYPTR macro: */
+                FAILURE_HANDLER(add):
+                CIF_HASH_ADD_UNDO(hh, temp_packet->map.head, scalar);
+                cif_map_entry_free_internal(scalar, &(temp_packet->map));
+                DEFAULT_FAIL(soft);
             }
         }
 
